@@ -1,0 +1,8 @@
+//go:build verif
+
+// Machine-checked contracts for package expression (comment-only; read by /verif/gocv).
+
+package expression
+
+//@ type $globals
+//@   field enginesMap nonnil guarded_by enginesLock
